@@ -182,9 +182,11 @@ PROPS["C08"]["runs"] += [
 # ---------------------------------------------------------------- root package kernels
 _EXTRAS = {"pkg/ringbuffer": "extra/ringbuffer", "internal/asyncprocessor": "extra/asyncprocessor"}
 PROPS["C17"] = {
-    "level_text": 'Transport admission only: isTransportSupported / pickFirstSupportedTransport agree with the reference rule (no secure profile without TLS, no plain UDP with TLS, no UDP through tunnels, multicast/UDP listener presence) for every combination of profile, protocol, delivery, TLS, listeners, multicast range and tunnel kind.',
-    "level_note": 'Outside: all cryptography (AES-CM/HMAC), MIKEY<->SRTP context conversion, redirect downgrade check, clear-text absence on the wire.',
-    "runs": [R("admission", ".", "root", ["ZzC17Admission"], params={"GOSTUB": 1}, extras=_EXTRAS)],
+    "level_text": 'No cryptography. (1) Transport admission: isTransportSupported / pickFirstSupportedTransport agree with the reference rule (no secure profile without TLS, no plain UDP with TLS, no UDP through tunnels, multicast/UDP listener presence) for every combination of profile, protocol, delivery, TLS, listeners, multicast range and tunnel kind. (2) Key management: contextToMikey -> mikeyToContext on the real code: master key and salt (30 symbolic bytes), MKI present/absent, 1..3 distinct SSRCs of which any prefix carries roll-over state: key, MKI, SSRC order and roll-over counters arrive unchanged, an SSRC without state is announced with counter 0.',
+    "level_note": 'Trusted: pion/srtp Context reduced to its SetROC/ROC table (cipher and HMAC not modelled), ntp.Encode/Decode replaced by the inverse-pair contract proved under C15, consecutive clock readings at most 60 s apart. Outside: all cryptography (AES-CM/HMAC: decrypt = inverse of encrypt, tamper rejection, no clear text on the wire), redirect downgrade check, which contexts the session plumbing hands to which writer.',
+    "runs": [R("admission", ".", "root", ["ZzC17Admission"], params={"GOSTUB": 1}, extras=_EXTRAS),
+             R("mikey-context", ".", "root", ["ZzC17MikeyContext"], params={"GOSTUB": 1, "NTPSTUB": 1, "NOWDRIFT": 60}, extras=_EXTRAS,
+               quick_params={"NSSRC": 3}, thorough_params={"NSSRC": 4})],
 }
 _EXTRAS = {"pkg/ringbuffer": "extra/ringbuffer", "internal/asyncprocessor": "extra/asyncprocessor"}
 PROPS["C18"] = {
